@@ -628,7 +628,7 @@ func c06G4(c *Ctx, r *Report, a *Anchors) {
 				continue
 			}
 			if errv == nil {
-				r.check("C06.G4", key, call.Pos(), false, "the error result of the resolver is discarded")
+				r.flag("C06.G4", key, call.Pos(), "the error result of the resolver is discarded")
 				continue
 			}
 			// every use of val that flows onward (phi edge or direct use) must be guarded by errv == nil,
@@ -654,7 +654,7 @@ func c06G4(c *Ctx, r *Report, a *Anchors) {
 			val, errv := extractOf(call, 0), extractOf(call, 1)
 			switch {
 			case errv == nil:
-				r.check("C06.G4", key, call.Pos(), false, "the coercion error is discarded")
+				r.flag("C06.G4", key, call.Pos(), "the coercion error is discarded")
 			case val == nil:
 				r.check("C06.G4", key, call.Pos(), true, "")
 			default:
